@@ -21,6 +21,10 @@ CHECKS = {
    text='Partial (assembly of E and H from the potentials and the currents, power scaling; far-field limit, 376.7 ohm and transversality are outside). The real compute_near_field / nf_helper / psi_near_field_56 / psi run for observation points on catalogue geometries (straight, L joined end2-end1 / end1-end1 / end2-end2 with different radii and segment lengths, T, star, wires grounded at either end, tapered wire, arc, helix) with symbolic pulse currents and every numerical integral an unknown; z3 decides on the monomial relaxation that all six components equal the per-half assembly written from pulse geometry alone (own direction, radius, segment length per half; image terms; finite differences over 0.001 lambda) for ALL currents and ALL values of the integrals, and that fields scale with sqrt(P_req/P). Structural differences are replayed on the real code: solved currents, adaptive quadrature, 1 %. One finding (nf_helper second half) repaired.',
    design='DESIGN.md 3 (C04), 9',
    technique='symbolic execution of the real near-field code on symbolic currents over uninterpreted integral-atoms; z3 (LRA on the monomial relaxation of the bilinear forms) decides equality with the geometry-only reference for all values; candidates replayed numerically on the untouched package'),
+ 'C05': dict(
+   text='Partial. Fill clause: base model, model moved through --geo-rotate/--geo-translate/--geo-scale (options given against their sort order, frequency divided by the scale) and model with reference-transformed coordinates, all from the real main(), are filled over ONE table of unknown integrals keyed by relative geometry in electrical units; z3 decides for ALL values of the integrals, V, Z_L and currents that options == coordinates, s*Z_moved = Z_base, s*rhs and s*load weight unchanged, and that the far field at the rotated azimuth is the base field times the translation phase; transformations are concrete and adversarial (100 wavelengths, negative coordinates, right and generic angles about three axes, scale 0.01/100, per-tag). Topology clause: the real Mininec.__init__ runs with a SYMBOLIC scale in [0.01,100], translation and rotation about Z; any branch feasible both ways (end matching, ground detection) is a dependence on placement or size and is replayed. The 5e-4 rounding clause is outside.',
+   design='DESIGN.md 3 (C05), 9',
+   technique='symbolic execution of the real main()/matrix fill/rhs/far field for three models over shared uninterpreted integral-atoms (z3 LRA for all atom values, voltages, loads, currents); symbolic execution of Mininec.__init__ on z3-term coordinates with symbolic scale/translation/rotation (path enumeration, exact sqrt by defining equations); candidates replayed on the untouched package'),
  'C06': dict(
    text="Partial (reversal and reordering; the collinear-split clause and the near field are outside, the latter decided under C04). A catalogue structure and each re-description (every order of the wires, every choice of reversed wires; quick: a spread of the variants) are filled over ONE table of unknown integrals. From pulse geometry alone the reference computes the integer matrix C expressing the pulses of D' in those of D (signed permutation, or a change of basis at junctions of three or more wires). z3 decides for ALL values of the integrals that Z' = C Z C^T entry by entry, for all complex V, Z_L that sources/loads on common pulses carry the orientation sign, and for all currents that the far field of D' with I' is that of D with C^T I'. Structural differences are replayed by solving both descriptions on the real code (5e-4, condition-number clause).",
    design='DESIGN.md 3 (C06), 9',
